@@ -486,6 +486,17 @@ def check_c05(tier: str) -> int:
                     ck.violation("record not read at its announced offset",
                                  {"kind": "stride", "trigger": {"class": "stride:" + cls}, "payload": p.hex(), "stride": stride,
                                   "record_index": i, "failure": desc})
+        elif count == len(recs) and recs:
+            # rejected: only legitimate when some record carries a value the document leaves undefined
+            specs = common.run_model([[SPEC, layout] + list(r[:8]) for r in recs])
+            reasons = [cls for r, sp in zip(recs, specs) for cls, _ in compare(name, r[:8], d, sp)]
+            if any(c.endswith(":rejected") for c in reasons):
+                reported[("stride-rejected", name)] += 1
+                if reported[("stride-rejected", name)] <= 2:
+                    ck.violation("a status message whose records the document defines is rejected",
+                                 {"kind": "stride", "trigger": {"class": "stride:rejected"}, "payload": p.hex(), "stride": stride,
+                                  "count": count, "failure": f"decoder raised {d[1]}; every field of every record (read at i * stride) is defined"})
+                continue
         if mis is not None:
             corr_bad += 1
             if corr_bad <= 6:
